@@ -58,7 +58,13 @@ bool InternalSurfaceFlagger::operator()(Aliased const& n)
  */
 bool InternalSurfaceFlagger::operator()(Negated const& n)
 {
-    if (auto* j = std::get_if<Joined>(&tree_[n.node]))
+    // Look through aliases: a negated alias of a join is still a negated join
+    NodeId target = n.node;
+    while (auto* a = std::get_if<Aliased>(&tree_[target]))
+    {
+        target = a->node;
+    }
+    if (auto* j = std::get_if<Joined>(&tree_[target]))
     {
         // Pointee is a "joined" node
         CELER_DISCARD(j);
